@@ -706,7 +706,14 @@ func parseSpecText(pkg string, lines []string) (sf *SpecFile, err error) {
 				panic(fmt.Errorf("spec: stray requires"))
 			}
 		case "ensures":
-			c := Clause{E: mustExpr(it.text), Text: it.text}
+			text, tag := it.text, ""
+			if strings.HasPrefix(text, "[") {
+				if j := strings.Index(text, "]"); j > 0 {
+					tag = strings.TrimSpace(text[1:j])
+					text = strings.TrimSpace(text[j+1:])
+				}
+			}
+			c := Clause{E: mustExpr(text), Text: text, Tag: tag}
 			if curL != nil {
 				curL.Ensures = append(curL.Ensures, c.E)
 			} else if curF != nil {
